@@ -32,6 +32,7 @@ func initIterable() {
 	IterableBaseMixin.IncludeMixin(IterableFiniteBaseMixin)
 	IterableInterface.AddConstantString("Base", Ref(IterableBaseMixin))
 	RegisterNativeMixin("Std::Iterable::Base", "value.IterableBaseMixin")
+	IteratorBaseMixin.IncludeMixin(IterableBaseMixin)
 
 	IterableNotFoundErrorClass = NewClassWithOptions(ClassWithSuperclass(ErrorClass))
 	IterableInterface.AddConstantString("NotFoundError", Ref(IterableNotFoundErrorClass))
